@@ -72,7 +72,20 @@ func driveH2C(c *ctx) {
 			msg := randBytes(rng, ml)
 			suite("RO", dst, msg, false)
 			suite("NU", dst, msg, false)
+			if ml == 0 { // the zero-length message as a nil slice
+				suite("RO", dst, nil, false)
+				suite("NU", dst, nil, false)
+			}
 		}
+	}
+	// tags whose LENGTH only fits wider integers: around 2^16 and 2^17, and lengths that are small modulo 2^8 / 2^16
+	// (every tag longer than 255 bytes is hashed down first; its length is never serialized)
+	for _, dl := range []int{65535, 65536, 65537, 65536 + 255, 65536 + 43, 131072, 131072 + 7} {
+		dst := randBytes(rng, dl)
+		msg := randBytes(rng, rng.Intn(40))
+		suite("RO", dst, msg, false)
+		suite("NU", dst, msg, false)
+		xmd(dst, msg, 48, false)
 	}
 	// tag and message live in ONE buffer (frame[:n], frame[n:]) with spare bytes behind: the call is a pure function of its
 	// arguments and writes nothing the caller owns
@@ -173,6 +186,32 @@ func driveH2C(c *ctx) {
 		dst := randBytes(rng, dl)
 		for _, n := range []int{1, 31, 32, 33, 48, 63, 64, 65, 96, 100, 255, 256, 257} {
 			xmd(dst, randBytes(rng, rng.Intn(100)), n, false)
+		}
+	}
+	// every message length 0..300 against tags of 1, 16, 49, 255 and 256 (hashed down to 32) bytes: msg_prime crosses every block,
+	// buffer and power-of-two boundary at exactly one message length per tag
+	for _, dl := range []int{1, 16, 49, 255, 256} {
+		dst := randBytes(rng, dl)
+		for ml := 0; ml <= 300; ml++ {
+			if !c.thorough() && dl != 49 && ml%2 == 1 && (ml < 120 || ml > 200) {
+				continue
+			}
+			m := randBytes(rng, ml)
+			xmd(dst, m, 96, false)
+			if dl == 49 || (dl == 1 && ml >= 120 && ml <= 200) || c.thorough() {
+				suite("NU", dst, m, false)
+			}
+		}
+	}
+	// every output length 1..300 (ell = 1..10; partial last blocks), and the multiples of 32 up to the limit
+	{
+		dst, m := randBytes(rng, 20), randBytes(rng, 11)
+		for n := 1; n <= 300; n++ {
+			xmd(dst, m, n, false)
+		}
+		for n := 320; n <= 8160; n += 32 * 35 {
+			xmd(dst, m, n, false)
+			xmd(dst, m, n-1, false)
 		}
 	}
 	xmd([]byte("d"), []byte("m"), 8160, false)
